@@ -130,6 +130,48 @@ def _natural_loops(b):
     return list(merged.items())
 
 
+FILLS = ("push", "push_back", "push_front", "insert", "extend", "extend_from_slice")
+
+
+def _bypass(b, sites, refusing):
+    """a way through one iteration of the outermost loop around `sites` (or through the body) that passes none of
+    them, as text; None if there is none."""
+    succ = b.succ()
+    loops = _natural_loops(b)
+    outer = [(h, body) for (h, body) in loops if sites & body]
+    passing = set(sites)
+    if outer:
+        h, region = max(outer, key=lambda x: len(x[1]))
+        for (h2, body2) in loops:
+            if h2 != h and body2 < region and body2 & sites:
+                passing.add(h2)
+        seen, st = set(), [y for y in succ[h] if y in region]
+        while st:
+            x = st.pop()
+            if x in seen or x in passing or x in refusing or b.blocks[x]["cleanup"]:
+                continue
+            seen.add(x)
+            for y in succ[x]:
+                if y == h:
+                    return "one iteration of the loop at %s can complete without it" % (b.blocks[h]["term"].get("span") or b.span)
+                if y in region:
+                    st.append(y)
+        return None
+    for (h2, body2) in loops:
+        if body2 & sites:
+            passing.add(h2)
+    seen, st = set(), [0]
+    while st:
+        x = st.pop()
+        if x in seen or x in passing or x in refusing or b.blocks[x]["cleanup"]:
+            continue
+        seen.add(x)
+        if b.blocks[x]["term"]["k"] == "return":
+            return "%s can return normally without it" % b.id
+        st.extend(succ[x])
+    return None
+
+
 def check_every_path(ctx, anchor, a_starts, b_starts, cut_sponge=True):
     """(ok, detail, where): in the body that holds the comparison (or the calls of the helper / closure holding it),
     every non-refusing way through one iteration of the outermost loop around those sites (or through the body)
@@ -175,6 +217,37 @@ def check_every_path(ctx, anchor, a_starts, b_starts, cut_sponge=True):
                     meet_blocks.setdefault(site[0], set()).add(site[1])
     if not meet_blocks:
         return False, "no comparison has one operand derived from each of them", anchor.body.span
+    # the compared values may travel through a container that is filled first (`tests.push((b, w))`) and walked
+    # afterwards: then the comparison loop runs as often as the container has entries, and the *fill* has to lie on
+    # every non-refusing path as well - a fill under a condition leaves the loop with nothing to compare
+    fills = {}
+    for bid in sorted(g.scope):
+        b = f.bodies[bid]
+        for i, t in b.calls():
+            if (t.get("callee") or "").rsplit("::", 1)[-1] in FILLS and len(t["args"]) >= 2 and not b.blocks[i]["cleanup"] \
+                    and any(a["k"] in ("copy", "move") and ((bid, a["pl"]["l"]) in fa or (bid, a["pl"]["l"]) in fb) for a in t["args"][1:]):
+                fills.setdefault(bid, set()).add(i)
+    if fills:
+        fsites = {(bid, i) for bid, blks in fills.items() for i in blks}
+
+        def cut2(n, e):
+            return (cut is not None and cut(n, e)) or (e.site in fsites and e.kind == DATA and e.op != "callres" and e.dst != OUTCOME
+                                                       and not (isinstance(e.dst, tuple) and e.dst and e.dst[0] == "CALLRES"))
+        fa2 = frames(g.reach(a_starts, cut=cut2, kinds=(DATA, ALIAS)))
+        fb2 = frames(g.reach(b_starts, cut=cut2, kinds=(DATA, ALIAS)))
+        direct = False
+        for (bid, blk, l, r, res, span) in comparison_sites(g):
+            for (x, y) in ((l, r), (r, l)):
+                if any(n in fa2 for n in x) and any(n in fb2 for n in y):
+                    direct = True
+        if not direct:
+            for bid, blks in sorted(fills.items()):
+                b = f.bodies[bid]
+                by = _bypass(b, blks, _refusing_blocks(b))
+                if by is not None:
+                    sp = b.blocks[sorted(blks)[0]]["term"].get("span") or b.span
+                    return False, ("they are compared only through a container filled at %s, and %s: on those paths the "
+                                   "comparison loop has nothing to compare" % (sp, by)), sp
     for bid, sites in sorted(meet_blocks.items()):
         b = f.bodies[bid]
         succ = b.succ()
